@@ -17,12 +17,12 @@ func init() {
 	Registry["C13"] = checkC13
 	Descriptions["C06"] = "C06-own-request (the variables the per-request goroutine captures are per-iteration ones, never assigned again by the read loop after the go statement), C06-counter (Request.ID is fed, through newRequest/readRequest/ResponseWriter.requestID, by the read loop's induction register phi(0,v+1)+1), " +
 		"C06-sequential-read (readRequest is called only synchronously from the read loop), C06-async (every synchronous route to a handler from the loop is control-dependent on routeOp==unbind or extendedName==StartTLS; all other requests reach (*Mux).serve only through a go statement), " +
-		"C06-nojoin (the loop body contains no operation that can wait for a handler), C06-nolock-wait (no mutex of Server or Mux can be held at a call that waits for a connection's handlers), C06-conn-async (serveRequests is reached from Run only through go). Decides numbering and absence of wait edges; scheduler progress is not decided."
+		"C06-nojoin (the loop body contains no operation that can wait for a handler), C06-nolock-wait (no mutex of Server or Mux can be held at a call that waits for a connection's handlers), C06-conn-async (serveRequests is reached from Run only through go), C06-nowrite (the read loop writes to the client itself only under the Unbind / StartTLS tests or on a path that leaves the loop: a handler blocked in Write holds the writer lock). Decides numbering and absence of wait edges; scheduler progress is not decided."
 	Descriptions["C10"] = "C10-first (both dispatch sites are control-dependent on routeOp != unbind, and every path from the read reaches the unbind test before a response write, a dispatch or the next read), C10-terminal (from the unbind edge every path leaves serveRequests without readRequest, serve, go or the loop back edge), " +
 		"C10-handler-once (the unbind route's handler is invoked exactly once iff one is registered, with this request and writer), C10-silent (gldap writes no response on that path), C10-classify (UnbindMessage <-> unbindRouteOperation <-> APP[2]), C10-inflight-waited (the teardown waits for the handlers dispatched before the Unbind - requestsWg.Add happens before the go statement, Wait precedes Close: rules C08-paired / C08-sequence)."
 	Descriptions["C13"] = "C13-inline (StartTLS dispatch is a plain call in the read loop), C13-rawhandshake (tls.Server on a load of conn.netConn; initConn reached only when Handshake returned nil, with that very tls.Conn), " +
 		"C13-pair (initConn stores netConn, reader=bufio.NewReader(x), writer=bufio.NewWriter(x) for the same x under conn.mu; these fields are written nowhere else), " +
-		"C13-fresh-writer (c.writer is re-loaded in every loop iteration; c.reader at every ReadPacket), C13-no-bypass (no direct Read/Write on the socket, no tls.Conn.NetConn), C13-answered (every response written is flushed by that Write on every kind of connection: rules C05-oneframe), C13-deadline (a deadline armed on the socket in mid-session is cleared for each direction it covered on every path to a success return). Does not decide crypto/tls behaviour."
+		"C13-fresh-writer (c.writer is re-loaded in every loop iteration; c.reader at every ReadPacket), C13-no-bypass (no direct Read/Write on the socket, no tls.Conn.NetConn), C13-answered (every response written is flushed by that Write on every kind of connection: rules C05-oneframe), C13-deadline (a deadline armed on the socket in mid-session is cleared for each direction it covered on every path to a success return), C13-lockrelease / C13-slot-release (a mutex locked, or a slot of a channel semaphore taken, on the upgrade path is given back on every exit, the failed handshake included). Does not decide crypto/tls behaviour."
 }
 
 // isHandlerInvoke: a dynamic call of a value of type HandlerFunc (or the
@@ -93,22 +93,41 @@ func (c *Ctx) isStartTLSAtom() eqAtom {
 // m.unbindRoute.handler() otherwise.
 func unbindHandlerGetter(f *ssa.Function) bool {
 	rets := an.Returns(f)
-	if len(rets) == 0 || f.Signature.Results().Len() != 1 {
+	nRes := f.Signature.Results().Len()
+	if len(rets) == 0 || nRes < 1 || nRes > 2 {
+		return false
+	}
+	// (handler, ok): the second result tells whether a route is registered
+	if nRes == 2 && !types.Identical(f.Signature.Results().At(1).Type(), types.Typ[types.Bool]) {
 		return false
 	}
 	isRoute := func(x ssa.Value) bool { _, ok := fieldLoad(x, G, "Mux", "unbindRoute"); return ok }
 	sawHandler := false
 	for _, ret := range rets {
-		res := an.Strip(an.ReturnResults(ret)[0])
+		all := an.ReturnResults(ret)
+		if len(all) != nRes {
+			return false
+		}
+		res := an.Strip(all[0])
 		switch {
 		case an.IsNilConst(res):
 			if !nilFact(ret.Block(), true, isRoute) {
 				return false
 			}
+			if nRes == 2 {
+				if v, isC := an.BoolConst(all[1]); !isC || v {
+					return false
+				}
+			}
 		default:
 			call, ok := res.(*ssa.Call)
 			if !ok || !call.Common().IsInvoke() || call.Common().Method.Name() != "handler" || !isRoute(call.Common().Value) || !nilFact(ret.Block(), false, isRoute) {
 				return false
+			}
+			if nRes == 2 {
+				if v, isC := an.BoolConst(all[1]); !isC || !v {
+					return false
+				}
 			}
 			sawHandler = true
 		}
@@ -285,6 +304,37 @@ func checkC06(c *Ctx) {
 	R.Count("C06-async/sync-sites", nSync)
 	R.Floor("C06-async", 2)
 
+	// ---- C06-nowrite: a handler blocked in a write to a client that does not read holds the connection's writer lock;
+	// the read loop must not write to the client itself (and so queue behind that handler) on a path that goes on to
+	// read the next request. Writes under the unbind / StartTLS tests and on paths that leave the loop are allowed.
+	isConnCWrite := func(cc *ssa.CallCommon) bool {
+		return an.CalleeIs(cc, G, "(*ResponseWriter).Write") || an.CalleeIs(cc, "bufio", "(*Writer).Flush") || an.CalleeIs(cc, "bufio", "(*Writer).Write")
+	}
+	nCW := 0
+	for _, ci := range an.Calls(m.serve) {
+		cc := ci.Common()
+		if isGo(ci) || isMuxServe(cc) || isHandlerInvoke(cc) {
+			continue
+		}
+		if _, isDefer := ci.(*ssa.Defer); isDefer {
+			continue
+		}
+		if !callReaches(ci, isConnCWrite, map[*ssa.Function]bool{}) {
+			continue
+		}
+		nCW++
+		key := "(*conn).serveRequests: write to the client from the read loop: " + calleeLabel(cc)
+		switch {
+		case hasEqFact(ci.Block(), true, isUnbind), hasEqFact(ci.Block(), true, isTLS):
+			R.OK("C06-nowrite", key, c.pos(ci), "only reached for Unbind / StartTLS")
+		case m.readReq != nil && an.Search(an.After(ci), isInstr(m.readReq), nil) == nil:
+			R.OK("C06-nowrite", key, c.pos(ci), "no path from this write reads another request: the loop is being left")
+		default:
+			R.Fail("C06-nowrite", key, c.pos(ci), "the read loop writes to the client and then reads the next request: a handler blocked in Write to a client that does not drain its socket holds the writer lock, so later requests on the connection are not dispatched until it gets out")
+		}
+	}
+	R.Count("C06-nowrite/sites", nCW)
+
 	// ---- C06-nojoin
 	slice := syncReach(m.serve)
 	delete(slice, m.muxServe)
@@ -459,6 +509,24 @@ func callReaches(ci ssa.CallInstruction, pred func(*ssa.CallCommon) bool, seen m
 // before the read, or start 1 and the increment after it (closures only read).
 func readLoopCellCounter(v ssa.Value, m *serverModel) (bool, string) {
 	ld, ok := v.(*ssa.UnOp)
+	if bo, isBO := v.(*ssa.BinOp); isBO && bo.Op == token.ADD {
+		// the value just stored by the increment (`id++` then `f(id)`: the load is resolved to the stored id+1)
+		if k, isK := an.IntConst(bo.Y); isK && k == 1 {
+			if l2, isL := bo.X.(*ssa.UnOp); isL && l2.Op == token.MUL {
+				if a2, isA := l2.X.(*ssa.Alloc); isA {
+					stored := false
+					for _, r := range *bo.Referrers() {
+						if st, isSt := r.(*ssa.Store); isSt && st.Addr == ssa.Value(a2) && st.Val == ssa.Value(bo) {
+							stored = true
+						}
+					}
+					if stored {
+						ld, ok = l2, true
+					}
+				}
+			}
+		}
+	}
 	if !ok || ld.Op != token.MUL {
 		return false, ""
 	}
@@ -503,12 +571,15 @@ func readLoopCellCounter(v ssa.Value, m *serverModel) (bool, string) {
 	if init != nil {
 		start, _ = an.IntConst(init.Val)
 	}
-	// once per iteration
-	if an.Search(an.After(inc), isInstr(inc), inBlock(m.loopHead)) != nil {
+	// once per iteration (headEntry: control re-enters the loop head, i.e. the next iteration begins)
+	headEntry := func(in ssa.Instruction) bool { return in.Block() == m.loopHead && an.PointOf(in).I == 0 }
+	if an.Search(an.After(inc), isInstr(inc), nil) == nil {
+		// never repeated at all
+	} else if w := an.Search(an.After(inc), isInstr(inc), headEntry); w != nil {
 		return false, "the increment can run more than once per iteration"
 	}
-	pre := an.InstrDominates(inc, m.readReq) && an.Search(an.After(inc), isInstr(m.readReq), inBlock(m.loopHead)) != nil
-	post := an.Search(an.After(m.readReq), inBlock(m.loopHead), isInstr(inc)) == nil // every way back to the loop head passes the increment
+	pre := an.InstrDominates(inc, m.readReq) && an.Search(an.After(inc), isInstr(m.readReq), headEntry) != nil
+	post := an.Search(an.After(m.readReq), headEntry, isInstr(inc)) == nil // every way back to the loop head passes the increment
 	switch {
 	case start == 0 && pre:
 		return true, "variable starting at 0, incremented once per iteration before the read: 1, 2, 3, ..."
@@ -725,7 +796,22 @@ func checkC10(c *Ctx) {
 	// the handler value may come from a getter of the mux that returns unbindRoute.handler(), or nil when no unbind
 	// route is registered; the nil test is then made on the getter's result
 	viaGetter := false
+	var okSucc *ssa.BasicBlock // (h, ok) getter: the successor taken when ok is true
 	if len(hcalls) == 1 && len(nilIfs) == 0 {
+		if ex, isEx := an.Strip(hcalls[0].Common().Value).(*ssa.Extract); isEx && ex.Index == 0 {
+			if gc, ok := ex.Tuple.(*ssa.Call); ok {
+				if gf := an.StaticCallee(gc.Common()); gf != nil && an.InModule(gf) && unbindHandlerGetter(gf) {
+					nilIfs = ifsOn(hFn, func(v ssa.Value) bool {
+						e1, is1 := an.Strip(v).(*ssa.Extract)
+						return is1 && e1.Tuple == ssa.Value(gc) && e1.Index == 1
+					})
+					if len(nilIfs) == 1 {
+						viaGetter = true
+						okSucc = succOn(nilIfs[0].If, !nilIfs[0].Neg)
+					}
+				}
+			}
+		}
 		if gc, ok := an.Strip(hcalls[0].Common().Value).(*ssa.Call); ok {
 			if gf := an.StaticCallee(gc.Common()); gf != nil && an.InModule(gf) && unbindHandlerGetter(gf) {
 				nilIfs = ifsOn(hFn, func(v ssa.Value) bool {
@@ -744,6 +830,9 @@ func checkC10(c *Ctx) {
 		v, _ := an.Not(ng.If.Cond)
 		_, trueMeansNil, _ := an.NilCheck(v)
 		nonNil := succOn(ng.If, trueMeansNil == ng.Neg)
+		if okSucc != nil {
+			nonNil = okSucc
+		}
 		ok := isCall(h)
 		// handler value = unbindRoute.handler()
 		hv, isCallV := an.Strip(h.Common().Value).(*ssa.Call)
@@ -1200,6 +1289,97 @@ func checkC13(c *Ctx) {
 		}
 		c.checkLockRelease("C13-lockrelease", uniq, "the next read on the connection blocks for ever: no request inside the TLS tunnel is decoded")
 		R.Floor("C13-lockrelease", 2)
+		// ---- C13-slot-release: the same for a slot of a counting semaphore (a send on a buffered channel kept in a
+		// package-level variable or a field): a slot taken on the upgrade path and not given back on one of its exits (the
+		// early return of a failed handshake) is lost for every connection; once all are lost no StartTLS ever starts
+		if st := c.fn(G, "(*Request).StartTLS"); st != nil {
+			for f := range syncReach(st) {
+				if !an.InModule(f) || c.P.IsTestFile(f.Pos()) {
+					continue
+				}
+				chanKey := func(v ssa.Value) string {
+					ld, ok := an.Strip(v).(*ssa.UnOp)
+					if !ok || ld.Op != token.MUL {
+						return ""
+					}
+					switch x := ld.X.(type) {
+					case *ssa.Global:
+						return x.String()
+					case *ssa.FieldAddr:
+						return an.Path(x)
+					}
+					return ""
+				}
+				type acq struct {
+					at   ssa.Instruction
+					from an.Point
+					ch   string
+				}
+				var acqs []acq
+				an.Instrs(f, func(in ssa.Instruction) {
+					switch x := in.(type) {
+					case *ssa.Send:
+						if k := chanKey(x.Chan); k != "" {
+							acqs = append(acqs, acq{x, an.After(x), k})
+						}
+					case *ssa.Select:
+						for i, stt := range x.States {
+							k := chanKey(stt.Chan)
+							if stt.Dir != types.SendOnly || k == "" {
+								continue
+							}
+							// the branch taken when this case fired: `if index == i`
+							for _, r := range *x.Referrers() {
+								ex, ok := r.(*ssa.Extract)
+								if !ok || ex.Index != 0 {
+									continue
+								}
+								for _, rr := range *ex.Referrers() {
+									bo, ok := rr.(*ssa.BinOp)
+									if !ok || bo.Op != token.EQL {
+										continue
+									}
+									if kk, isK := an.IntConst(bo.Y); !isK || int(kk) != i {
+										continue
+									}
+									for _, r3 := range *bo.Referrers() {
+										if iff, ok := r3.(*ssa.If); ok {
+											acqs = append(acqs, acq{x, an.Point{B: iff.Block().Succs[0], I: 0}, k})
+										}
+									}
+								}
+							}
+						}
+					}
+				})
+				for _, a := range acqs {
+					release := func(in ssa.Instruction) bool {
+						switch x := in.(type) {
+						case *ssa.UnOp:
+							return x.Op == token.ARROW && chanKey(x.X) == a.ch
+						case *ssa.Defer:
+							if g := an.StaticCallee(x.Common()); g != nil {
+								rel := false
+								an.Instrs(g, func(in2 ssa.Instruction) {
+									if u, ok := in2.(*ssa.UnOp); ok && u.Op == token.ARROW {
+										if ld, ok := an.Strip(u.X).(*ssa.UnOp); ok {
+											if gl, ok := ld.X.(*ssa.Global); ok && gl.String() == a.ch {
+												rel = true
+											}
+										}
+									}
+								})
+								return rel
+							}
+						}
+						return false
+					}
+					w := an.Search(a.from, an.IsReturn, release)
+					R.Check(w == nil, "C13-slot-release", fname(f)+": slot of "+a.ch+" given back on every path", c.pos(a.at), "every path from taking the slot to a return receives from the channel (or defers it)",
+						"a slot of the semaphore "+a.ch+" taken on the StartTLS path is not given back on some path ("+c.trail(w)+"): each such exit loses a slot for every connection, and once none is left no upgrade ever starts its handshake")
+				}
+			}
+		}
 	}
 	// ---- C13-answered: "requests inside the tunnel are ... answered exactly as on a plain connection": a response a
 	// handler writes is put on the stream and flushed by that very Write, whatever the connection is (rules
@@ -1448,4 +1628,16 @@ func (c *Ctx) endsReadLoop(f *ssa.Function, m *serverModel) bool {
 		}
 	}
 	return n > 0
+}
+
+// calleeLabel names a call for an obligation key: the static callee when
+// there is one, the printed callee value otherwise.
+func calleeLabel(cc *ssa.CallCommon) string {
+	if f := an.StaticCallee(cc); f != nil {
+		return fname(f)
+	}
+	if cc.IsInvoke() {
+		return an.Path(cc.Value) + "." + cc.Method.Name()
+	}
+	return an.Path(cc.Value)
 }
